@@ -38,6 +38,8 @@ FINDINGS = {
     "teardown-outlives-shutdown": "rfbShutdownServer does not wait for client threads that are already tearing themselves down; they may still run when the application calls rfbScreenCleanup",
     "copyrect-inflight-race": "rfbDoCopyRect/rfbScheduleCopyRect while an output thread is between taking its update region and sending it: the client copies source pixels it has already received in their new state; its picture stays wrong",
     "stale-descriptor-write": "rfbWriteExact reads cl->sock before it takes outputMutex and clientInput closes the socket without that mutex: an application-thread writer (rfbSendBell, rfbSendServerCutText ...) that holds a reference on a leaving client writes to the descriptor number after it was closed; if a new connection arrived in between the bytes go into that client's socket or notify pipe (which makes its input thread shut the innocent client down)",
+    "extclip-reply-unlocked": "the input thread sends the ExtendedClipboard capability message and its answers to the client's Request / Peek without sendMutex (and reads cl->extClipboardData, which rfbSendServerCutTextUTF8 replaces under sendMutex): the message lands in the middle of a framebuffer update the output thread is sending, the viewer's stream is corrupted",
+    "onhold-client-joined": "rfbShutdownServer (threaded) calls pthread_join on the client_thread of every client in the list, also of a client the application put on hold (RFB_CLIENT_ON_HOLD) and never started: its thread handle is zero (undefined behaviour, crash in glibc), and nobody runs rfbClientConnectionGone for it",
     "newfb-latecomer": "a client that connects while the application is inside rfbNewFramebuffer is not among the clients locked and refreshed by that call: if its first update was taken from the old framebuffer it keeps showing the old contents until something else marks the screen (and its output thread may still read the old buffer when the application releases it)",
     "softcursor-pollutes-others": "a client without cursor-shape updates has the cursor drawn into the shared framebuffer while it sends; other clients' output threads capture those pixels",
 }
@@ -462,8 +464,11 @@ def analyse(script, rc, out, err):
         elif t[0] == "misuse":
             fin = None
             what = " ".join(t[1:])
-            if "join-of-unknown-thread" in what and listen: fin = "shutdown-accept-race"
+            if "join-of-unknown-thread" in what and len(cfgl) > 14 and int(cfgl[14]) & 16: fin = "onhold-client-joined"
+            elif "join-of-unknown-thread" in what and listen: fin = "shutdown-accept-race"
             elif "unlock-by-non-owner S" in what: fin = "newfb-membership-race"
+            elif "write-inside-foreign-send" in what and re.search(r"writer=I(\d+) sender=(O\1|A)\b", what) and len(cfgl) > 14 and int(cfgl[14]) & 8:
+                fin = "extclip-reply-unlocked"
             elif "write-on-stale-descriptor" in what and ti_role_app(evs, what): fin = "stale-descriptor-write"
             elif ("destroy-locked-mutex" in what or "unlock-by-non-owner U" in what) and ti.get("A", {}).get("at") in ("mutex_unlock", "write"):
                 fin = "iterator-ref-race"
@@ -482,11 +487,12 @@ def analyse(script, rc, out, err):
             if not any(r.startswith("threads ") and "lib_alive=0" not in r for r in res):
                 add("descriptors are still open after rfbShutdownServer + rfbScreenCleanup: " + " ".join(t[1:]), None, None)
         elif t[0] == "unserved":
+            if len(cfgl) > 14 and int(cfgl[14]) & 16: continue      # the application itself keeps every client on hold
             add("a connection was accepted at socket level but never served: " + " ".join(t[1:]), None, None)
         elif t[0] in ("harness-error", "peer-stuck", "gone-unknown-client"):
             add(" ".join(t), None, None)
         elif t[0] == "proto":
-            add("malformed stream at peer: " + " ".join(t[1:]), "send-during-handshake" if not (guards & 1) and any(o[0] in ("bell", "cut", "cututf8") for o in ops) else None, None)
+            add("malformed stream at peer: " + " ".join(t[1:]), "extclip-reply-unlocked" if any(x.startswith("misuse write-inside-foreign-send") for x in res) and len(cfgl) > 14 and int(cfgl[14]) & 8 else "send-during-handshake" if not (guards & 1) and any(o[0] in ("bell", "cut", "cututf8") for o in ops) else None, None)
         elif t[0] == "gone" and t[2] != "count=1":
             if ended and ended[0] == "end ok":
                 add("clientGoneHook ran %s times for client %s" % (t[2].split("=")[1], t[1].split("=")[1]), None, None)
